@@ -1,8 +1,32 @@
 open C19
 open Drv
-(*#include natconv*)
+(*#include zconv*)
 let codes_of_string s = if s = "-" then [] else List.map (fun t -> nat_of_int (int_of_string t)) (String.split_on_char ',' s)
 let string_of_codes l = if l = [] then "-" else String.concat "," (List.map (fun c -> string_of_int (int_of_nat c)) l)
+let optzs s = if s = "_" then None else Some (zs_of_string s)
+let str_optzs = function None -> "_" | Some l -> string_of_zs l
+let string_of_q q = Printf.sprintf "%d/%d" (int_of_z q.qnum) (int_of_pos q.qden)
+(* record (same format as drv_c05.ml): k1,..,k7 (T and q ids may be _) : n : Tval|_ : run : fail : succ : ewt : wall : lc|_|A : cv|_|A *)
+let raw_of_string s =
+  match String.split_on_char ':' s with
+  | [ks; n; tv; run; fail; succ; ewt; wall; lc; cv] ->
+      let k = Array.of_list (String.split_on_char ',' ks) in
+      let id i = nat_of_int (int_of_string k.(i)) in
+      let oid i = if k.(i) = "_" then None else Some (id i) in
+      let zi x = z_of_int (int_of_string x) in
+      { w_code = id 0; w_nkd = id 1; w_em = id 2; w_dec = id 3; w_p = id 4; w_T = oid 5; w_q = oid 6;
+        w_n = zi n; w_Tval = (if tv = "_" then None else Some (zi tv));
+        w_pay = { p_run = zi run; p_fail = zi fail; p_succ = zi succ; p_ewt = zi ewt; p_wall = zi wall;
+                  p_lc = (if lc = "A" then None else optzs lc); p_cv = (if cv = "A" then None else optzs cv) };
+        w_lc_present = (lc <> "A"); w_cv_present = (cv <> "A") }
+  | _ -> failwith "badraw"
+let string_of_row r =
+  let p = r.row_pay in
+  let (fr, pr) = row_rates r in
+  Printf.sprintf "%s:%d:%d:%d:%d:%d:%s:%s:%s:%s"
+    (String.concat "," (List.map (fun x -> string_of_int (int_of_nat x)) r.row_key))
+    (int_of_z p.p_run) (int_of_z p.p_fail) (int_of_z p.p_succ) (int_of_z p.p_ewt) (int_of_z p.p_wall)
+    (str_optzs p.p_lc) (str_optzs p.p_cv) (string_of_q fr) (string_of_q pr)
 let dispatch = function
   | ["parse"; s] ->
       (match parse_spec (codes_of_string s) with
@@ -15,5 +39,28 @@ let dispatch = function
       Printf.sprintf "file=%s stdout=%d errlog=%d exit=%d"
         (match o.o_fs 0 with None -> "none" | Some 0 -> "old" | Some _ -> "new")
         (List.length o.o_stdout) (List.length o.o_errlog) (int_of_nat o.o_exit)
+  | ["mergecmd"; exists_; dir_ok; out; dt; dq; files] ->
+      (* the merge command over a small file system: path 0 = the output file (old content JBad when it exists),
+         paths 1..n = the DATA_FILEs: "!" unparsable, "?" missing, "-" empty list, else ';'-separated records *)
+      let fl = Array.of_list (String.split_on_char '|' files) in
+      let file_of s = if s = "?" then None else if s = "!" then Some JBad
+                      else Some (JData (if s = "-" then [] else List.map raw_of_string (String.split_on_char ';' s))) in
+      let f = fun p -> let i = int_of_nat p in
+                if i = 0 then (if exists_ = "1" then Some JBad else None)
+                else if i <= Array.length fl then file_of fl.(i - 1) else None in
+      let ps = List.init (Array.length fl) (fun i -> nat_of_int (i + 1)) in
+      let o = merge_cmd_records (nat_of_int (int_of_string dt)) (nat_of_int (int_of_string dq)) (fun _ -> dir_ok = "1")
+                f ps (if out = "-" then None else Some O) in
+      let rows_str = function
+        | JRows rows -> if rows = [] then "-" else String.concat ";" (List.map string_of_row rows)
+        | _ -> "?" in
+      let fstate = match o.o_fs O with None -> "none" | Some JBad -> "old" | Some _ -> "new" in
+      let data = (match o.o_stdout, o.o_errlog, o.o_fs O with
+                  | d :: _, _, _ -> rows_str d
+                  | _, d :: _, _ -> rows_str d
+                  | _, _, Some (JRows r) -> rows_str (JRows r)
+                  | _ -> "_") in
+      Printf.sprintf "exit=%d file=%s stdout=%d errlog=%d rows=%s" (int_of_nat o.o_exit) fstate
+        (List.length o.o_stdout) (List.length o.o_errlog) data
   | _ -> "ERR BadRequest"
 let () = main dispatch
